@@ -4,6 +4,7 @@ import SJ.Props.C09Stream
 import SJ.Props.StreamTyped
 import SJ.Props.C09LineCol
 import SJ.Props.C09Readers
+import SJ.Props.C09ReadersRaw
 #print axioms SJ.Props.C09.c09_slice_reader
 #print axioms SJ.Props.C09.c09_str_slice_ignored
 #print axioms SJ.Props.C09.c09_str_slice_value
@@ -39,3 +40,6 @@ import SJ.Props.C09Readers
 #print axioms SJ.Props.C09.c09_str_readers_positions
 #print axioms SJ.Props.C09.c09_strread_slice
 #print axioms SJ.Props.C09.c09_hex_escape_cut
+#print axioms SJ.Props.C09.c09_slice_raw_refines
+#print axioms SJ.Props.C09.c09_io_raw_refines
+#print axioms SJ.Props.C09.c09_raw_readers_agree
